@@ -328,18 +328,51 @@ func ruleCacheKey(r *Run) {
 		}
 		// (3) the key used to store is the key used to look up
 		var lookKeys, storeKeys []ssa.Value
-		for _, ins := range allInstrs(plan) {
-			switch x := ins.(type) {
-			case *ssa.Lookup:
-				if isCacheMap(x.X) {
-					lookKeys = append(lookKeys, x.Index)
-				}
-			case *ssa.MapUpdate:
-				if isCacheMap(x.Map) {
-					storeKeys = append(storeKeys, x.Key)
+		// the lookup and the store may sit in helpers of the planner (lookup(hk),
+		// putLocked(hk, res)): a key that is a helper's parameter is the caller's argument
+		var collectKeys func(fn *ssa.Function, subst func(ssa.Value) ssa.Value, depth int)
+		collectKeys = func(fn *ssa.Function, subst func(ssa.Value) ssa.Value, depth int) {
+			for _, ins := range allInstrs(fn) {
+				switch x := ins.(type) {
+				case *ssa.Lookup:
+					// inside a helper only keys handed in by Plan count: a helper that looks up
+					// keys it iterates itself (expiry housekeeping) is not the plan lookup
+					if _, isParam := x.Index.(*ssa.Parameter); isCacheMap(x.X) && (depth == 0 || isParam) {
+						lookKeys = append(lookKeys, subst(x.Index))
+					}
+				case *ssa.MapUpdate:
+					if _, isParam := x.Key.(*ssa.Parameter); isCacheMap(x.Map) && (depth == 0 || isParam) {
+						storeKeys = append(storeKeys, subst(x.Key))
+					}
+				case *ssa.Call:
+					callee := x.Call.StaticCallee()
+					if callee == nil || len(callee.Blocks) == 0 || !inModule(callee) || callee == hash || depth >= 3 {
+						continue
+					}
+					takesPlanner := false
+					for _, a := range x.Call.Args {
+						if namedOf(a.Type()) == plannerPkg+".CachedPlanner" {
+							takesPlanner = true
+						}
+					}
+					if !takesPlanner {
+						continue
+					}
+					args := x.Call.Args
+					collectKeys(callee, func(v ssa.Value) ssa.Value {
+						if p, ok := v.(*ssa.Parameter); ok {
+							for i, q := range callee.Params {
+								if q == p && i < len(args) {
+									return subst(args[i])
+								}
+							}
+						}
+						return v
+					}, depth+1)
 				}
 			}
 		}
+		collectKeys(plan, func(v ssa.Value) ssa.Value { return v }, 0)
 		same := len(lookKeys) > 0 && len(storeKeys) > 0
 		for _, s := range storeKeys {
 			for _, l := range lookKeys {
